@@ -66,7 +66,10 @@ class Factory:
         self.payload = payload      # extra bytes carried by every transcript (torn_put probe)
 
     def log(self, ev, **kw):
-        rec = dict(kw, ev=ev, w=_worker_index(), t=time.monotonic())
+        self.log_as(_worker_index(), ev, **kw)
+
+    def log_as(self, w, ev, **kw):
+        rec = dict(kw, ev=ev, w=w, t=time.monotonic())
         fd = os.open(self.log_path, os.O_WRONLY | os.O_APPEND | os.O_CREAT, 0o644)
         try:
             os.write(fd, (json.dumps(rec) + "\n").encode())
